@@ -1702,6 +1702,10 @@ func parseOpenSSHPrivateKey(key []byte, decrypt openSSHDecryptFunc) (crypto.Priv
 
 		pk.Precompute()
 
+		if err := checkOpenSSHOuterPublicKey(w.PubKey, &pk.PublicKey); err != nil {
+			return nil, err
+		}
+
 		return pk, nil
 	case KeyAlgoED25519:
 		var key openSSHEd25519PrivateKey
@@ -1717,8 +1721,20 @@ func parseOpenSSHPrivateKey(key []byte, decrypt openSSHDecryptFunc) (crypto.Priv
 			return nil, err
 		}
 
+		// The private field is seed || public key and the public key is
+		// stated once more in the Pub field: both copies must be the public
+		// key that belongs to the seed, or signatures made with the key
+		// would not verify under the public key it advertises.
+		derived := ed25519.NewKeyFromSeed(key.Priv[:ed25519.SeedSize])
+		if !bytes.Equal(derived, key.Priv) || !bytes.Equal(derived[ed25519.SeedSize:], key.Pub) {
+			return nil, errors.New("ssh: public key does not match private key")
+		}
+
 		pk := ed25519.PrivateKey(make([]byte, ed25519.PrivateKeySize))
 		copy(pk, key.Priv)
+		if err := checkOpenSSHOuterPublicKey(w.PubKey, pk.Public()); err != nil {
+			return nil, err
+		}
 		return &pk, nil
 	case KeyAlgoECDSA256, KeyAlgoECDSA384, KeyAlgoECDSA521:
 		var key openSSHECDSAPrivateKey
@@ -1750,10 +1766,16 @@ func parseOpenSSHPrivateKey(key []byte, decrypt openSSHDecryptFunc) (crypto.Priv
 		if key.D.Cmp(curve.Params().N) >= 0 {
 			return nil, errors.New("ssh: scalar is out of range")
 		}
+		if key.D.Sign() <= 0 {
+			return nil, errors.New("ssh: scalar is out of range")
+		}
 
 		x, y := curve.ScalarBaseMult(key.D.Bytes())
 		if x.Cmp(X) != 0 || y.Cmp(Y) != 0 {
 			return nil, errors.New("ssh: public key does not match private key")
+		}
+		if err := checkOpenSSHOuterPublicKey(w.PubKey, &ecdsa.PublicKey{Curve: curve, X: X, Y: Y}); err != nil {
+			return nil, err
 		}
 
 		return &ecdsa.PrivateKey{
@@ -1892,6 +1914,24 @@ func marshalOpenSSHPrivateKey(key crypto.PrivateKey, comment string, encrypt ope
 		Bytes: append([]byte(privateKeyAuthMagic), b...),
 	}
 	return block, nil
+}
+
+// checkOpenSSHOuterPublicKey verifies that the public key stored in the clear
+// in front of the private section of an OpenSSH private key file is the public
+// key of the private key found inside, as OpenSSH does when loading a file.
+func checkOpenSSHOuterPublicKey(outer []byte, pub crypto.PublicKey) error {
+	want, err := NewPublicKey(pub)
+	if err != nil {
+		return err
+	}
+	got, err := ParsePublicKey(outer)
+	if err != nil {
+		return fmt.Errorf("ssh: failed to parse embedded public key: %v", err)
+	}
+	if !bytes.Equal(got.Marshal(), want.Marshal()) {
+		return errors.New("ssh: public key in file does not match private key")
+	}
+	return nil
 }
 
 func checkOpenSSHKeyPadding(pad []byte) error {
